@@ -1,17 +1,15 @@
 prop("C01",
      level_text="Lean 4 theorems over the executable plugin model M4-core (same model, reachability notion and invariant as C04): "
-                "unique_owner_partial (one record per address in memory and in the store, unallocated addresses have no record, "
-                "store = memory pointwise, for every reachable state), no_shared_ip_between_live_pods_partial (two live bound "
+                "unique_owner (one record per address in memory and in the store, unallocated addresses have no record, "
+                "store = memory pointwise, for every reachable state), no_shared_ip_between_live_pods (two live bound "
                 "pods with a common address are the same pod - corollary of the C04 ownership invariant and "
-                "key_injective_on_pod_identity), handed_ip_is_not_free_partial, fact_*. Counter theorem no_shared_ip_counter "
+                "key_injective_on_pod_identity), handed_ip_is_not_free, fact_*. Counter theorem no_shared_ip_counter "
                 "(model without the unbind UID guard: D2 two moves later, replay corpus/C01/d2-shared.ops).",
-     level_note="_partial: same scope as C04 (non-empty names, bind requests carry the pod UID, reloads keep live pods' addresses "
-                "configured - otherwise operator error: an address removed while in use and added again is handed out again; "
-                "theorem and monitor exempt it). C01's quantifier includes 'any single API call failing': all fault positions "
-                "of all moves are covered EXCEPT a failing store delete inside ConfigurePool, which breaks the property on the "
-                "real code (known finding ip-handed-to-two-live-pods:cause=reload-delete-fault-resurrects-stale-record, replay "
-                "corpus/C01/reload-delete-fault-shared-ip.ops). The two C04 defects found earlier are fixed; their replays are "
-                "regression histories.",
+     level_note="Full strength within the property's scope (Galaxy.Plugin.assumed: non-empty names, bind requests carry the pod "
+                "UID, reloads keep live pods' addresses configured - otherwise operator error: an address removed while in use "
+                "and added again is handed out again; theorem and monitor exempt it), for every fault position of every move. "
+                "State.store = objects of configured addresses, State.orphans = objects whose delete failed during a reload. "
+                "The defects found earlier (consequences of the C04 ones) are fixed; their replays are regression histories.",
      technique="Lean 4 inductive invariant over an executable model + regenerated structural facts (factgen plugin) + differential "
                "correspondence with the REAL FloatingIPPlugin (see C04); monitor = no address in the binding annotation of two "
                "live pods, IPAM dump lists every address once, FloatingIP objects and memory agree on key/uid/node/policy; "
